@@ -1739,13 +1739,17 @@ package gomatrixserverlib
 //@   requires e != nil && roomParses(e.eventFields.RoomID)
 
 //@ func (*eventV3).AuthEventIDs
-//@   property C18:safety
+//@   property C03, C18:safety
 //@   requires e != nil && (isCreateFields(e.eventFields) || len(e.eventFields.RoomID) >= 1)
+//@   ensures create-event-has-no-auth-events: isCreateFields(e.eventFields) ==> len(result) == 0
+//@   ensures create-event-is-always-first: !isCreateFields(e.eventFields) ==> (len(result) == 1 + len(e.AuthEvents) && result[0] == "$" + substr(e.eventFields.RoomID, 1, len(e.eventFields.RoomID)) && (forall i int :: 0 <= i && i < len(e.AuthEvents) ==> result[1 + i] == e.AuthEvents[i]))
 
 // for the create event of a v12 room the room ID is derived from the event ID, which must have the hash form
 //@ func (*eventV3).RoomID
-//@   property C18:safety
-//@   requires e != nil && (isCreateFields(e.eventFields) ? (len(e.EventIDRaw) >= 1 && roomParses("!" + substr(e.EventIDRaw, 1, len(e.EventIDRaw)))) : roomParses(e.eventFields.RoomID))
+//@   property C03, C18:safety
+//@   ensures create-room-id-is-the-event-id: old(isCreateFields(e.eventFields)) ==> result.raw == "!" + substr(old(e.EventIDRaw), 1, len(old(e.EventIDRaw)))
+//@   ensures other-events-carry-their-room-id: !isCreateFields(e.eventFields) ==> result.raw == e.eventFields.RoomID
+//@   requires e != nil && (isCreateFields(e.eventFields) ? (e.EventIDRaw != "" && len(e.EventIDRaw) >= 1 && roomParses("!" + substr(e.EventIDRaw, 1, len(e.EventIDRaw)))) : roomParses(e.eventFields.RoomID))
 
 // EventID() of formats 2 and 3 hashes the redacted event on first use and panics when redaction fails (F13)
 //@ func (*eventV2).EventID
@@ -1754,9 +1758,20 @@ package gomatrixserverlib
 //@   ensures cached: old(e.EventIDRaw) != "" ==> result == old(e.EventIDRaw)
 //@   assigns e.EventIDRaw
 
-// referenceOfEvent (redact, strip, hash, encode) is C03's subject; assumed not to panic (sha256 / base64 are outside the subset)
+// the event reference / ID of formats 2 and 3: a hash of the redacted event without signatures and unsigned
 //@ func referenceOfEvent
-//@   trusted
+//@   property C03
+//@   nosafety
+//@   calls RedactEventJSON@root the-whole-event-under-its-room-version: arg0 == root_eventJSON && ref(recv) == verImplRef(string(root_roomVersion))
+//@   calls Unmarshal@root of-the-redacted-event: (isType(arg(Unmarshal, 1), "*map[string]spec.RawJSON") ==> data == ret(RedactEventJSON, 0))
+//@   calls Marshal@root without-signatures-and-unsigned: forall k string :: (k in v.("map[string]spec.RawJSON")) <==> (k != "signatures" && k != "unsigned" && after(Unmarshal, k in v.("map[string]spec.RawJSON")))
+//@   calls Marshal@root members-unchanged: forall k string :: (k in v.("map[string]spec.RawJSON")) ==> v.("map[string]spec.RawJSON")[k] == after(Unmarshal, v.("map[string]spec.RawJSON")[k])
+//@   calls CanonicalJSON@root of-the-stripped-redacted-event: input == ret(Marshal, 0)
+//@   calls Sum256@root over-its-canonical-form: data == ret(CanonicalJSON, 0)
+//@   calls EncodeToString@root the-hash: len(src) == 32
+//@   ensures id-is-sigil-plus-encoded-hash: (result[1] == nil && called(EncodeToString)) ==> result[0].EventID == "$" + ret(EncodeToString)
+//@   ensures hash-formats-only: (result[1] == nil && ret(EventFormat) == 2) ==> called(EncodeToString)
+//@   ensures unknown-version-is-an-error: !verKnown(string(roomVersion)) ==> result[1] != nil
 //@   assigns nothing
 
 // ---- canonical JSON byte-level helpers (safety only; their functional contracts belong to C01)
@@ -1988,3 +2003,31 @@ package gomatrixserverlib
 //@   nosafety
 //@   ensures closes-the-object: len(result) >= 1 && result[len(result) - 1] == 125
 //@   calls ForEach@root every-member-of-the-object: t == root_input
+
+// ---------------------------------------------------------------- C03: building and identifying events
+
+// hashes.sha256 is computed over the event without signatures, unsigned and hashes (C03); abstract here
+//@ func addContentHashesToEvent
+//@   trusted
+
+// signing an event: the redacted form is signed, the signatures are copied back into the full event
+//@ func signEvent
+//@   property C03
+//@   nosafety
+//@   calls RedactEventJSON@root the-whole-event-under-its-room-version: arg0 == root_eventJSON && ref(recv) == verImplRef(string(root_roomVersion))
+//@   calls SignJSON@root the-redacted-form: message == ret(RedactEventJSON, 0) && signingName == root_signingName && keyID == root_keyID && privateKey == root_privateKey
+//@   calls Marshal@root every-member-kept-signatures-replaced: v.("map[string]spec.RawJSON") != nil ==> forall k string :: (k in v.("map[string]spec.RawJSON")) <==> (k == "signatures" || after(Unmarshal, k in v.("map[string]spec.RawJSON")))
+//@   calls Marshal@root other-members-unchanged: forall k string :: (k != "signatures" && k in v.("map[string]spec.RawJSON")) ==> v.("map[string]spec.RawJSON")[k] == after(Unmarshal, v.("map[string]spec.RawJSON")[k])
+//@   ensures result-is-the-reassembled-event: result[1] == nil ==> (called(Marshal) && result[0] == ret(Marshal, 0))
+
+//@ func (*EventBuilder).Build
+//@   property C03
+//@   nosafety
+//@   requires eb != nil
+//@   ensures unknown-version-is-an-error: old(eb.version) == nil ==> err != nil
+//@   ensures v12-create-events-carry-no-room-id: (err == nil && old(eb.version.DomainlessRoomIDs()) && old(eb.Type) == "m.room.create" && old(eb.StateKey) != nil) ==> old(eb.RoomID) == ""
+//@   ensures built-event-is-reparsed-and-checked: err == nil ==> (called(NewEventFromTrustedJSON) && result == ret(NewEventFromTrustedJSON, 0) && called(CheckFields) && ret(CheckFields) == nil && arg(CheckFields, 0) == result)
+//@   calls addContentHashesToEvent@root before-signing: true
+//@   calls signEvent@root the-hashed-event: eventJSON == ret(addContentHashesToEvent, 0) && signingName == string(root_origin) && keyID == root_keyID && privateKey == root_privateKey && roomVersion == old(eb.version.Version())
+//@   calls EnforcedCanonicalJSON@root under-the-room-versions-number-rules: input == ret(signEvent, 0) && roomVersion == old(eb.version.Version())
+//@   calls NewEventFromTrustedJSON@root the-canonical-signed-json-not-redacted: arg0 == ret(EnforcedCanonicalJSON, 0) && !arg1
